@@ -673,8 +673,23 @@ def r7_actions_forwarded(ctx, R="R-C04-7"):
               "completion through it (cleanup_process_resources is triggered by this event): %s" % path_desc(c, bad), c.loc(hb))
 
 
+def r8_timeouts_wake(ctx):
+    """a timeout that has elapsed resumes the select: the three expiry tests (the select's own, the periodic check that re-queues parked selects, the
+    host's next-wake-up time) agree in direction and strictness — shared with R-C05-6"""
+    from rules import c05
+    before = len(ctx.obs)
+    c05.r6_timeouts(ctx)
+    for o in ctx.obs[before:]:
+        o["rule"] = "R-C04-8"
+    if "R-C05-6" in ctx.rules:
+        ctx.rules["R-C04-8"] = ctx.rules.pop("R-C05-6")
+    for f in ctx.floors:
+        if f["rule"] == "R-C05-6":
+            f["rule"] = "R-C04-8"
+
+
 def run(ctx):
-    ctx.run_rules([r1_unpark_enqueue, r2_park_dequeue, r3_pipeline, r4_order, r5_spawner, r6_await_registration, r7_actions_forwarded])
+    ctx.run_rules([r1_unpark_enqueue, r2_park_dequeue, r3_pipeline, r4_order, r5_spawner, r6_await_registration, r7_actions_forwarded, r8_timeouts_wake])
     return (
         "Decides structural clauses only: (1) every parked-set removal is paired with a run-queue push of the same id on every non-error "
         "path and only when something was parked; (2) only mark_* park, each dequeues, step re-queues unless parked, effect requests park first; "
